@@ -123,6 +123,9 @@ class Impl:
   def recipe(self):
     return json.loads(json.dumps(self.qt.get_quantization_recipe()))
 
+  def need_calibration(self):
+    return self.qt.need_calibration
+
   def resolve(self, op, scope):
     alg, cfg = self.qt._recipe_manager.get_quantization_configs(
         self.L.qtyping.TFLOperationName(op), scope)
@@ -183,6 +186,12 @@ class Ref:
              'algorithm_key': r['algorithm_key'], 'op_config': r['op_config']}
             for r in self.r.rules()]
 
+  def need_calibration(self):
+    # a rule with integer compute and an activation config needs statistics
+    return any(r['op_config'].get('compute_precision') == 'INTEGER' and
+               'activation_tensor_config' in r['op_config']
+               for r in self.r.rules())
+
   def resolve(self, op, scope):
     alg, cfg = self.r.resolve(op, scope, supported)
     return alg, (cfg if cfg is not None else dict(DEFAULT_EXPORT))
@@ -195,7 +204,8 @@ def state_key(recipe):
 
 def table(obj):
   return [[op, sc] + list(obj.resolve(op, sc))
-          for op in QUERY_OPS for sc in QUERY_SCOPES]
+          for op in QUERY_OPS for sc in QUERY_SCOPES] + [
+              ['need_calibration', '', str(bool(obj.need_calibration())), {}]]
 
 
 def explore(first, depth, evs, visit, res, only=None):
